@@ -93,6 +93,7 @@ type CallRec struct {
 	Timeout  int64
 	Progress bool
 	Cancels  []string
+	Disclose bool // disclose_me
 }
 
 // InvRec tracks one INVOCATION received by a traffic client.
@@ -122,6 +123,8 @@ type TClient struct {
 	Calls     []*CallRec
 	Invs      []*InvRec
 	pubSeq    map[wamp.URI]int
+	pubDiscl  map[string]bool // "<tag>#<seq>" of publications made with disclose_me
+	RegByID   map[wamp.ID]TOp // registration id -> the REGISTER op that was acknowledged with it
 	callSeq   int
 	Done      bool
 	features  wamp.Dict
@@ -134,7 +137,7 @@ const (
 )
 
 func NewTClient(s *Sess, beh int, slow time.Duration) *TClient {
-	t := &TClient{Sess: s, Beh: beh, SlowDelay: slow, SubReq: map[wamp.ID]TOp{}, SubByID: map[wamp.ID]TOp{}, RegReq: map[wamp.ID]TOp{}, pubSeq: map[wamp.URI]int{}}
+	t := &TClient{Sess: s, Beh: beh, SlowDelay: slow, SubReq: map[wamp.ID]TOp{}, SubByID: map[wamp.ID]TOp{}, RegReq: map[wamp.ID]TOp{}, pubSeq: map[wamp.URI]int{}, pubDiscl: map[string]bool{}, RegByID: map[wamp.ID]TOp{}}
 	s.OnRecv = t.onRecv
 	return t
 }
@@ -163,8 +166,11 @@ func (t *TClient) onRecv(s *Sess, m wamp.Message) {
 			t.SubByID[x.Subscription] = op
 		}
 	case *wamp.Registered:
-		if _, ok := t.RegReq[x.Request]; ok {
+		if op, ok := t.RegReq[x.Request]; ok {
 			t.RegIDs = append(t.RegIDs, x.Registration)
+			if d, _ := t.RegByID[x.Registration].Opts["disclose_caller"].(bool); !d {
+				t.RegByID[x.Registration] = op // (an acknowledged REGISTER with disclose_caller is remembered)
+			}
 		}
 	case *wamp.Interrupt:
 		for _, iv := range t.Invs {
@@ -278,6 +284,9 @@ func (t *TClient) Exec(c *Ctx, op TOp) bool {
 			o[k] = v
 		}
 		args := wamp.List{fmt.Sprintf("p:%s:%s", t.Name, op.URI), t.pubSeq[op.URI]}
+		if d, _ := o["disclose_me"].(bool); d {
+			t.pubDiscl[fmt.Sprintf("p:%s:%s#%d", t.Name, op.URI, t.pubSeq[op.URI])] = true
+		}
 		if op.Chunks > 0 {
 			args = append(args, strings.Repeat("x", op.Chunks)) // a large event among small ones
 		}
@@ -329,6 +338,7 @@ func (t *TClient) Exec(c *Ctx, op TOp) bool {
 			cr.Timeout = to
 		}
 		cr.Progress, _ = o["receive_progress"].(bool)
+		cr.Disclose, _ = o["disclose_me"].(bool)
 		ok := t.SendRec(&wamp.Call{Request: req, Options: o, Procedure: op.URI, Arguments: wamp.List{tag}})
 		cr.SentSeq, cr.SentT = t.W.S.StepCount(), t.W.S.Elapsed()
 		if ok {
@@ -496,6 +506,9 @@ func GenTraffic(g *Rand, tc TrafficCfg) []TOp {
 				if g.Chance(1, 8) {
 					op.Chunks = []int{600, 3000, 5000, 9000}[g.Intn(4)] // payload padding
 				}
+				if g.Chance(1, 6) {
+					op.Opts["disclose_me"] = true
+				}
 				if g.Chance(1, 5) {
 					// receiver filters: the broker looks at every subscriber's session details
 					switch g.Intn(4) {
@@ -529,6 +542,9 @@ func GenTraffic(g *Rand, tc TrafficCfg) []TOp {
 				}
 				if tc.Timeouts && g.Chance(1, 3) {
 					op.Opts["timeout"] = []int{1, 5, 100, 1000, 30000, 90000}[g.Intn(6)]
+				}
+				if op.Kind == tCall && g.Chance(1, 5) {
+					op.Opts["disclose_me"] = true
 				}
 				op.Chunks = g.Range(2, 3)
 			case tCancel:
